@@ -636,7 +636,9 @@ def run(chk):
         "harness tools/props/c15.py and tools/vlib/faultfs.py (real file system in a scratch directory; faults injected by patching open/os.open/os.replace and the object's bound method)",
     ]
     _t("start")
-    leanio.prove(chk, "MontePyVerif.Props.C15", THEOREMS, NAMESPACE)
+    proved = leanio.prove(chk, "MontePyVerif.Props.C15", THEOREMS, NAMESPACE)
+    if proved and chk.thorough:
+        leanio.leanchecker(chk, ["MontePyVerif.Props.C15", "MontePyVerif.Lemmas.Write", "MontePyVerif.Model.Write", "MontePyVerif.Spec.Blocks"])
     drv = leanio.Driver(chk, "drv_c15")
     if not drv.ok:
         return
@@ -654,7 +656,7 @@ def run(chk):
                 specs.append({"fixture": name, "edits": edits})
     specs.append({"scratch": True, "edits": []})
     specs.append({"text": TINY, "edits": []})
-    ngen = chk.pick(10, 200)
+    ngen = chk.pick(10, 450)
     for _ in range(ngen):
         text = gen_text(rng)
         specs.append({"text": text, "edits": rng.choice(EDIT_MENU)})
@@ -668,7 +670,7 @@ def run(chk):
             continue
         keep_specs.append((s, r))
     ans = drv.batch([{"op": "write", "problem": r["problem"], "scenarios": []} for _, r in keep_specs])
-    budget_full = chk.pick(14, 60)
+    budget_full = chk.pick(14, 160)
     nfull = 0
     for (s, r), a in zip(keep_specs, ans):
         if "error" in a:
